@@ -4,7 +4,7 @@ CONSTANTS
   S = 1
   Bug = "NoLevelInvariant"
   NL = 2
-  MaxW = 3
+  MaxW = 2
   Kinds = {1}
   MaxOps = 0
   Emit = FALSE
